@@ -65,7 +65,7 @@ PLANS['C08'] = {
 }
 PLANS['C11'] = {
     'quick': [tree('D4', 4, 1, 2, '{1}', 'SA', 'D4'), tree('OD4', 4, 1, 1, '{1}', 'O', 'OD'),
-              tree('DL5', 5, 1, 1, '{1}', 'A', 'DL', maxfail=9, circ=1, flavour='limits')],
+              tree('DL5', 5, 1, 1, '{1}', 'A', 'DL', maxfail=9, circ=1, flavour='limits'), tree('RD6', 6, 1, 1, '{1}', 'A', 'RD', constraint='RDConstraint')],
     'thorough': [tree('D4', 4, 1, 2, '{1}', 'SA', 'D4'), tree('OD4', 4, 1, 1, '{1}', 'O', 'OD'),
                  tree('DL5', 5, 1, 1, '{1}', 'A', 'DL', maxfail=9, circ=1, flavour='limits'),
                  tree('D4asan', 4, 1, 2, '{1}', 'SA', 'D4', flavour='asan')],
@@ -86,8 +86,8 @@ def cmp_run(name, tier):
     return {'name': name, 'module': 'MC_Compare', 'mode': 'cmp', 'invariants': ['Reflexive'],
             'constants': {'Tier': '"%s"' % tier, 'Emit': 'TRUE'}, 'timeout': 3000}
 PLANS['C12'] = {
-    'quick': [cmp_run('pairsQ', 'quick'), cmp_run('pairsBig', 'big'), cmp_run('pairsNum', 'nums')],
-    'thorough': [cmp_run('pairsT', 'thorough'), cmp_run('pairsBig', 'big'), cmp_run('pairsNum', 'nums')],
+    'quick': [cmp_run('pairsQ', 'quick'), cmp_run('pairsBig', 'big'), cmp_run('pairsNum', 'nums'), cmp_run('fold', 'fold')],
+    'thorough': [cmp_run('pairsT', 'thorough'), cmp_run('pairsBig', 'big'), cmp_run('pairsNum', 'nums'), cmp_run('fold', 'fold')],
     'rule': 'all ordered pairs (a, b, case flag) over a finite universe of values (all scalars incl. boundary numbers, all containers of width <= 2 '
             'over them with keys a/A/b, nested containers in thorough); non-trivial = every pair (each is compared in both orders and with ownership flags toggled); distinct by construction',
     'assumptions': ['objects have distinct keys (distinct after case folding when comparing case-insensitively), as the property states',
@@ -110,14 +110,14 @@ def parse_runs(tier):
                 parse_run('lit5', 'lit', 5, 1000), parse_run('ws4', 'ws', 4, 1000), parse_run('long4', 'long', 4, 1000),
                 parse_run('edit5', 'tok', 5, 1000, edits=True),
                 parse_run('bigq', 'bigq', 0, 1000), parse_run('allbytes', 'allbytes', 0, 1000),
-                parse_run('bigqdef', 'bigq', 0, 1000, extra=' --defaulthooks'), parse_run('strtable', 'strtable', 0, 1000, extra=' --numsweep 600000'),
+                parse_run('bigqdef', 'bigq', 0, 1000, extra=' --defaulthooks'), parse_run('strtable', 'strtable', 0, 1000, extra=' --numsweep 600000'), parse_run('strtabledef', 'strtable', 0, 1000, extra=' --defaulthooks'),
                 parse_run('longasan', 'long', 4, 1000, flavour='asan'), parse_run('bigqasan', 'bigq', 0, 1000, flavour='asan')]
     return [parse_run('tok9', 'tok', 9, 4, flavour='limits'), parse_run('nest11', 'nest', 11, 4, flavour='limits'), parse_run('nest9L2', 'nest', 9, 2, flavour='limits2'), parse_run('deepL2', 'deep', 0, 2, flavour='limits2'), parse_run('deepL4', 'deep', 0, 4, flavour='limits'),
             parse_run('str4', 'str', 4, 1000, timeout=5000), parse_run('num8', 'num', 8, 1000),
             parse_run('lit6', 'lit', 6, 1000), parse_run('ws6', 'ws', 6, 1000), parse_run('long6', 'long', 6, 1000),
             parse_run('edit7', 'tok', 7, 1000, edits=True, timeout=5000), parse_run('tok7plain', 'tok', 7, 1000),
             parse_run('big', 'big', 0, 1000), parse_run('allbytes', 'allbytes', 0, 1000),
-            parse_run('bigdef', 'big', 0, 1000, extra=' --defaulthooks'), parse_run('strtablefull', 'strtable', 0, 1000, extra=' --fulltable --numsweep 6000000'),
+            parse_run('bigdef', 'big', 0, 1000, extra=' --defaulthooks'), parse_run('strtablefull', 'strtable', 0, 1000, extra=' --fulltable --numsweep 6000000'), parse_run('strtabledef', 'strtable', 0, 1000, extra=' --defaulthooks'),
             parse_run('longasan', 'long', 6, 1000, flavour='asan'), parse_run('bigasan', 'big', 0, 1000, flavour='asan'), parse_run('str3asan', 'str', 3, 1000, flavour='asan')]
 
 PARSE_RULE = ('byte strings grown unit by unit (bytes or tokens) from every still-viable prefix, so the set is closed under truncation; universes: token '
@@ -170,7 +170,8 @@ for _p in ('C06', 'C07', 'C11', 'C19'):
     PLANS[_p]['thorough'] = PLANS[_p]['thorough'] + [tracetree(300, 250), tracetree(150, 400, 16), tracetree(40, 600, 24)]
     PLANS[_p]['rule'] = PLANS[_p]['rule'] + '; plus seeded random histories on the real library with up to 10 nodes (traces validated step by step by Trace_Tree.tla)'
 # C08 also covers parse and print under a refused request
-PLANS['C08']['quick'] = PLANS['C08']['quick'] + [parse_run('tok5fail', 'tok', 5, 1000, failinject=True), print_run('printQfail', 'quick', failinject=True)]
+PLANS['C08']['quick'] = PLANS['C08']['quick'] + [parse_run('tok5fail', 'tok', 5, 1000, failinject=True), print_run('printQfail', 'quick', failinject=True),
+                                                 parse_run('scalefaildef', 'strtable', 0, 1000, failinject=True, extra=' --defaulthooks'), parse_run('scalefail', 'strtable', 0, 1000, failinject=True)]
 PLANS['C08']['thorough'] = PLANS['C08']['thorough'] + [parse_run('tok7fail', 'tok', 7, 1000, failinject=True), parse_run('str2fail', 'str', 2, 1000, failinject=True),
                                                        print_run('printTfail', 'thorough', failinject=True), print_run('printQfailasan', 'quick', flavour='asan', failinject=True)]
 PLANS['C08']['rule'] = TREE_RULE + '; plus every parse of the token universe and every print of the print universe with each single allocation request refused in turn (both allocator configurations for printing)'
@@ -221,16 +222,16 @@ UTIL_ASSUME = ['objects have distinct keys, as the properties state', 'number va
 UTIL_NOTE = 'bounded document/patch universes; the RFC evaluators of Pointer.tla / Patch.tla are the oracle; TLC and the driver are trusted'
 
 # C07 quantifies over histories of ALL public calls: the utilities must balance the allocator too
-def big_run(name, mode, circ=10000, limitcases=False, flavour='plain'):
+def big_run(name, mode, circ=10000, limitcases=False, flavour='plain', scale='{65535, 65536, 70001, 1048579}'):
     r = {'name': name, 'module': 'MC_Big', 'mode': 'utils', 'flavour': flavour, 'timeout': 3000,
-         'constants': {'Mode': '"%s"' % mode, 'Emit': 'TRUE', 'CircLimit': circ, 'WithLimitCases': 'TRUE' if limitcases else 'FALSE'}}
+         'constants': {'Mode': '"%s"' % mode, 'Emit': 'TRUE', 'CircLimit': circ, 'WithLimitCases': 'TRUE' if limitcases else 'FALSE', 'ScaleSizes': scale}}
     if mode == 'sort':
         r['drvargs'] = '--record {outdir}/%s.records.ndjson' % name
         r['post'] = 'utilcheck'
     return r
 def _c07_utils():
-    PLANS['C07']['quick'] = PLANS['C07']['quick'] + [patch_run('pairs07', 'pairs', 'thorough'), patch_run('apply07', 'apply', 'thorough'), patch_run('merge07', 'merge', 'thorough')]
-    PLANS['C07']['thorough'] = PLANS['C07']['thorough'] + [patch_run('pairs07', 'pairs', 'deep'), patch_run('apply07', 'apply', 'deep'), patch_run('merge07', 'merge', 'deep')]
+    PLANS['C07']['quick'] = PLANS['C07']['quick'] + [patch_run('pairs07', 'pairs', 'thorough'), patch_run('apply07', 'apply', 'thorough'), patch_run('merge07', 'merge', 'thorough'), print_run('escTable07', 'table')]
+    PLANS['C07']['thorough'] = PLANS['C07']['thorough'] + [patch_run('pairs07', 'pairs', 'deep'), patch_run('apply07', 'apply', 'deep'), patch_run('merge07', 'merge', 'deep'), print_run('escTable07', 'table', extra=' --fulltable')]
     PLANS['C07']['rule'] += '; plus every patch application, merge and patch generation of the utility universes under the census allocator'
 _c07_utils()
 # beyond the small scopes: deep / wide trees for Duplicate, long member lists for sorting (MC_Big.tla)
@@ -238,7 +239,7 @@ PLANS['C11']['quick'] = PLANS['C11']['quick'] + [big_run('dupbig', 'dup'), big_r
 PLANS['C11']['thorough'] = PLANS['C11']['thorough'] + [big_run('dupbig', 'dup'), {**big_run('dupbigasan', 'dup'), 'flavour': 'asan'}, big_run('dupL2', 'dup', circ=2, limitcases=True, flavour='limits2'),
                                                        big_run('dupLimit', 'dup', limitcases=True)]
 PLANS['C19']['quick'] = PLANS['C19']['quick'] + [big_run('sortbig', 'sort')]
-PLANS['C19']['thorough'] = PLANS['C19']['thorough'] + [big_run('sortbig', 'sort')]
+PLANS['C19']['thorough'] = PLANS['C19']['thorough'] + [big_run('sortbig', 'sort', scale='{65535, 65536, 70001, 1048575, 1048579}')]
 PLANS['C15'] = {
     'quick': [ptr_run('ptr5', 5)], 'thorough': [ptr_run('ptr6', 6)],
     'rule': 'documents with keys "", a, A, /, ~, 0, 1, 01, a/b, m~n, ~1, -, nested arrays (one of 12 elements) x ALL pointer strings up to the length bound over {/ ~ 0 1 2 a A -} plus long-index and escaped pointers; all (document, node) pairs for construction; non-trivial = every case; distinct by construction',
@@ -564,3 +565,9 @@ PLANS['C20'] = {
     'level_text': 'Schedules are explored exhaustively on the model: every interleaving of the atomic global accesses of up to 3 threads, where the only admissible conflict is on the documented error position and every read a result can depend on returns the initial value. What makes the model speak about the code is the footprint table, extracted from the object files of the current tree for every public function; real multi-threaded runs under ThreadSanitizer add dynamic evidence.',
     'level_note': 'model: 2-3 threads x 1-2 calls; static extraction classifies x86-64 loads/stores by operand position (clang -O1); TSan runs are a sample of schedules',
 }
+
+for _p in ('C17', 'C18'):       # generation sorts both documents: the scale directives of the sort cases also run generation on 65 535 - 70 001 members
+    PLANS[_p]['quick'] = PLANS[_p]['quick'] + [big_run('sortscale', 'sort', scale='{65535, 65536, 70001}')]
+    PLANS[_p]['thorough'] = PLANS[_p]['thorough'] + [big_run('sortscale', 'sort', scale='{65535, 65536, 70001}')]
+PLANS['C06']['quick'] = PLANS['C06']['quick'] + [big_run('keylens', 'keys')]
+PLANS['C06']['thorough'] = PLANS['C06']['thorough'] + [big_run('keylens', 'keys')]
